@@ -286,3 +286,68 @@ func VerifHarness_C16_RegisterResolver() {
 		zz.Assert(zz.AllWritten(tDataResolver, func(x *api.DataResolver) bool { return x.ResolverId == req.ResolverId }), "C16 RegisterResolver registers to the named resolver only")
 	})
 }
+
+// ---- C10 (data module): determinism of the four handlers by self-composition
+
+func runDet16(req sdk.Msg, lemmas func(), call func(s serverImpl, ctx context.Context) (interface{}, error)) {
+	install16()
+	s := symServer()
+	zz.NondetInto("req", req)
+	zz.Assume(req.ValidateBasic() == nil)
+	if lemmas != nil {
+		lemmas()
+	}
+	zz.ProcessState(&s)
+	zz.AssumeLoopBound("getOrCreateDataID", zz.Bound("iter", 2))
+	run := func() (resp interface{}, err error, panicked bool) {
+		defer func() {
+			if r := recover(); r != nil {
+				err = errPanicked16
+				panicked = true
+			}
+		}()
+		resp, err = call(s, zz.Context())
+		return resp, err, false
+	}
+	zz.OrmBegin()
+	r1, e1, p1 := run()
+	zz.EffectsSnapshot()
+	zz.OrmRollbackIf(true)
+	r2, e2, p2 := run()
+	zz.Assert(zz.And((e1 == nil) == (e2 == nil), p1 == p2), "C10 two executions of the same message from the same state have the same outcome")
+	zz.Assert(zz.SameEffects(), "C10 two executions of the same message from the same state leave the same table contents and events")
+	if e1 == nil && e2 == nil {
+		zz.Assert(zz.DeepEqual(r1, r2), "C10 two executions of the same message from the same state give the same response")
+	}
+	zz.Assert(zz.HiddenWrites() == 0, "C10 the handler writes no per-process state (package-level variables, server memory)")
+	zz.Assert(zz.WallClockReads() == 0, "C10 the handler reads no wall clock and starts no goroutine")
+	zz.Reach("two executions")
+}
+
+func VerifHarness_C10_Anchor() {
+	req := &data.MsgAnchor{}
+	runDet16(req, func() { iriLemma(req.ContentHash) }, func(s serverImpl, ctx context.Context) (interface{}, error) { return s.Anchor(ctx, req) })
+}
+
+func VerifHarness_C10_Attest() {
+	req := &data.MsgAttest{}
+	runDet16(req, func() {
+		for _, ch := range req.ContentHashes {
+			iriLemma(ch)
+		}
+	}, func(s serverImpl, ctx context.Context) (interface{}, error) { return s.Attest(ctx, req) })
+}
+
+func VerifHarness_C10_DefineResolver() {
+	req := &data.MsgDefineResolver{}
+	runDet16(req, nil, func(s serverImpl, ctx context.Context) (interface{}, error) { return s.DefineResolver(ctx, req) })
+}
+
+func VerifHarness_C10_RegisterResolver() {
+	req := &data.MsgRegisterResolver{}
+	runDet16(req, func() {
+		for _, ch := range req.ContentHashes {
+			iriLemma(ch)
+		}
+	}, func(s serverImpl, ctx context.Context) (interface{}, error) { return s.RegisterResolver(ctx, req) })
+}
